@@ -356,7 +356,15 @@ func simSearch(t *testing.T, opts map[string]string) {
 						viol++
 						vr.Plan = v
 					} else {
-						vr.Tape = nil
+						if samples < 2 && vr.Nontrivial {
+							samples++
+							vr.Plan = v
+							if len(vr.Tape) > 64 {
+								vr.Tape = vr.Tape[:64]
+							}
+						} else {
+							vr.Tape = nil
+						}
 					}
 					vr.Trace = nil
 					if err := enc.Encode(vr); err != nil {
